@@ -48,7 +48,10 @@ def run(ctx):
         runlevel.scripted_controller_runs(ctx, "c03script", 12 if ctx.quick else 120)
     stats, samples = runlevel.ctl_replay(ctx, rep, ctx.pid)
     traces = runlevel.get_pool(ctx)
+    # ONE WHOLE CALL of optimize() (Opt.init + Full.step + Opt.finish): size of the initial phase, reserve, loop budget, complete call sequence
+    wstats = runlevel.whole_replay(ctx, rep) if ctx.pid == "C03" else None
     rep.coverage = {
+        "whole_run_model": wstats,
         "evaluations": stats["iterations"], "distinct_nontrivial": stats["searches"] + stats["polls"],
         "rule": "one evaluation = one main-loop iteration of a traced real run replayed through Ctl.step (oracle: search outcome, per-evaluation poll improvements, stall tests; "
                 "determined and compared: func_count, recorded rows, search_count, search_success, search_spree, mesh exponents, poll_iteration, finished, message); "
